@@ -13,6 +13,13 @@ static OFFSET_NS: AtomicU64 = AtomicU64::new(0);
 static VIRTUAL: AtomicBool = AtomicBool::new(true);
 static QUERIES: AtomicU64 = AtomicU64::new(0);
 static STEP_NS: AtomicU64 = AtomicU64::new(0);
+/// Called on every reading of the virtual clock (the schedule explorer makes readings visible to itself).
+static READ_HOOK: std::sync::atomic::AtomicUsize = std::sync::atomic::AtomicUsize::new(0);
+
+#[allow(dead_code)]
+pub fn set_read_hook(f: Option<fn()>) {
+    READ_HOOK.store(f.map_or(0, |f| f as usize), Ordering::SeqCst);
+}
 
 /// Make every clock reading advance the virtual clock by `ns` (0 = frozen between explicit advances).
 #[allow(dead_code)]
@@ -24,6 +31,11 @@ pub fn set_step_ns(ns: u64) {
 pub unsafe extern "C" fn clock_gettime(clk: libc::clockid_t, ts: *mut libc::timespec) -> libc::c_int {
     if clk == libc::CLOCK_MONOTONIC && VIRTUAL.load(Ordering::Relaxed) {
         QUERIES.fetch_add(1, Ordering::Relaxed);
+        let hook = READ_HOOK.load(Ordering::SeqCst);
+        if hook != 0 {
+            let f: fn() = std::mem::transmute::<usize, fn()>(hook);
+            f();
+        }
         // optional: every reading of the clock takes some (virtual) time
         let step = STEP_NS.load(Ordering::Relaxed);
         let off = if step == 0 { OFFSET_NS.load(Ordering::Relaxed) } else { OFFSET_NS.fetch_add(step, Ordering::Relaxed) + step };
